@@ -103,7 +103,7 @@ func Run(env *core.Env, p *load.Program, prop string, sel json.RawMessage) (*cor
 			jobsPerSrc = 1
 		}
 	}
-	chunk := 150000 / jobsPerSrc
+	chunk := 60000 / jobsPerSrc
 	if chunk < 100 {
 		chunk = 100
 	}
@@ -162,7 +162,8 @@ func Run(env *core.Env, p *load.Program, prop string, sel json.RawMessage) (*cor
 			}
 			seen[o.Name] = true
 			if o.Status == core.Discharged {
-				o.Query = "" // only failed obligations keep their query (replay files)
+				// only failed obligations keep their query and replay description
+				o.Query, o.ReplayData = "", nil
 			}
 			obls = append(obls, o)
 		}
@@ -391,6 +392,11 @@ func newPlan(s *Selection, ts TierSel, srcs []*Src, families bool) *plan {
 			}
 		}
 	}
+	// the programs shown as samples in the evidence come with their DumpTable text
+	step := len(pl.cases)/4 + 1
+	for i := 0; i < len(pl.cases); i += step {
+		pl.jobs[pl.cases[i].job.ID].Table = true
+	}
 	if s.has("eval=LR.bound") && families {
 		for _, x := range C10Family {
 			src, err := ParseSrc(x, true)
@@ -465,15 +471,55 @@ var C10Family = []string{
 
 func (pl *plan) generate(cx *Checker, progs map[int]*XProg) []*core.Obl {
 	out := make([][]*core.Obl, len(pl.cases))
+	// the cases of one source form a group: one goroutine, one unrolling cache
+	// (a large source -- seeded random trees -- is split up again: its unrollings are
+	// long and the configurations rarely coincide)
+	groups := map[*Src][]int{}
+	var order []*Src
+	for i, pc := range pl.cases {
+		key := pc.src
+		if pc.bnd == nil && pc.src.Size() > 10 {
+			key = &Src{} // a group of its own
+		}
+		if _, ok := groups[key]; !ok {
+			order = append(order, key)
+		}
+		groups[key] = append(groups[key], i)
+	}
 	var wg sync.WaitGroup
 	sem := make(chan struct{}, runtime.NumCPU())
-	for i, pc := range pl.cases {
+	for _, src := range order {
 		wg.Add(1)
 		sem <- struct{}{}
-		go func(i int, pc *planned) {
+		go func(idx []int) {
 			defer wg.Done()
 			defer func() { <-sem }()
-			c := &Case{Src: pc.src, Text: pc.job.Src, Job: pc.job, Prog: progs[pc.job.ID], Cfg: ConfigName(pc.job.Mask, pc.job.Ev, pc.job.Costs)}
+			grp := &caseGroup{unrolled: map[string]*Unrolled{}}
+			for _, i := range idx {
+				pl.generateCase(cx, progs, grp, i, out)
+			}
+		}(groups[src])
+	}
+	wg.Wait()
+	var all []*core.Obl
+	seen := map[string]bool{}
+	for _, os := range out {
+		for _, o := range os {
+			if seen[o.Name] {
+				continue
+			}
+			seen[o.Name] = true
+			all = append(all, o)
+		}
+	}
+	return all
+}
+
+func (pl *plan) generateCase(cx *Checker, progs map[int]*XProg, grp *caseGroup, i int, out [][]*core.Obl) {
+	pc := pl.cases[i]
+	{
+		{
+			c := &Case{Src: pc.src, Text: pc.job.Src, Job: pc.job, Prog: progs[pc.job.ID], Cfg: ConfigName(pc.job.Mask, pc.job.Ev, pc.job.Costs), group: grp}
 			if pc.altID >= 0 {
 				c.Alt = progs[pc.altID]
 			}
@@ -559,21 +605,8 @@ func (pl *plan) generate(cx *Checker, progs map[int]*XProg) []*core.Obl {
 				obls = append(obls, cx.C02(c, c02)...)
 			}
 			out[i] = obls
-		}(i, pc)
-	}
-	wg.Wait()
-	var all []*core.Obl
-	seen := map[string]bool{}
-	for _, os := range out {
-		for _, o := range os {
-			if seen[o.Name] {
-				continue
-			}
-			seen[o.Name] = true
-			all = append(all, o)
 		}
 	}
-	return all
 }
 
 func (pl *plan) samples(obls []*core.Obl, progs map[int]*XProg) []interface{} {
